@@ -199,6 +199,7 @@ Swapping_Vector<T>::erase(iterator itr) {
   ++i;
   while (i != size()) {
     swap(impl[i-1], impl[i]);
+    ++i;
   }
   impl.pop_back();
   return begin() + old_i;
